@@ -454,7 +454,10 @@ func (fr *Frame) val(v ssa.Value) Val {
 		c := vc.W.globalCell(vc, v)
 		return Val{T: v.Type(), Loc: &Loc{Cell: c}, Nil: "false"}
 	case *ssa.Function:
-		return Val{T: v.Type(), Clo: &Closure{Fn: v}}
+		if IsRepo(v) && v.Parent() == nil {
+			fr.linkFuncValue(v)
+		}
+		return Val{T: v.Type(), Clo: &Closure{Fn: v}, Term: vc.funcID(v)}
 	case *ssa.Builtin:
 		return Val{T: v.Type()}
 	}
@@ -1334,6 +1337,9 @@ func (fr *Frame) execValue1(in ssa.Value, cond string, st *State) Val {
 }
 
 func isString(t types.Type) bool {
+	if tp, ok := types.Unalias(t).(*types.TypeParam); ok {
+		return typeParamIsString(tp)
+	}
 	b, ok := t.Underlying().(*types.Basic)
 	return ok && b.Info()&types.IsString != 0
 }
